@@ -139,6 +139,7 @@ func init() {
 			return nil
 		},
 	}
+	installTreeModels()
 }
 
 // stubsOff lists ergo-level stubs a harness has switched off (e.g. byte-mode shortID).
